@@ -16,7 +16,7 @@ from .. import rig as R, ref, gen, qcore, env
 from ..orch import h
 
 ID = "C01"
-TECHNIQUE = 'runtime monitoring - transcript monitor: every EVENT frame of a REQ answer judged by a reference NIP-01 matcher against the acknowledged events; statement-shape monitor: SQL text at the DBAPI cursor / python source handed to compile() compared with a benign twin (hostile filter values must stay data)'
+TECHNIQUE = 'runtime monitoring - transcript monitor: every EVENT frame of a REQ answer judged by a reference NIP-01 matcher against the acknowledged events; statement-shape monitor: SQL text at the DBAPI cursor / python source handed to compile() compared with a benign twin (hostile filter values must stay data); end-to-end shard: the same soundness judgement for REQs asked on every worker process of a real server (events stored through different workers) and again after a restart'
 LEVEL = "exploration"
 RULE = (
     "cases = (backend, seeded hostile store of 40-120 accepted events with a history of replacements and "
@@ -26,17 +26,30 @@ RULE = (
     "filter and its benign twin (shape judged). Distinct = distinct (backend, canonical filter list, store seed)."
 )
 ASSUMPTIONS = [
+    "end-to-end shards: a real gunicorn/uvicorn server process tree started from the tree under test (vf/e2e_launch.py: the repository's run_with_gunicorn / run_with_uvicorn; the SQL schema is made with the repository's metadata.create_all because its alembic env.py does not run with the installed SQLAlchemy; the notifier's fixed TCP port 6000 is replaced by a free port), spoken to over loopback TCP with the websockets client; real time, real sleeps",
     "LMDB backend runs over /verif/shim (ctypes binding of real liblmdb 0.9.31 + pure-python msgpack)",
     "SQL backend = SQLite through aiosqlite; PostgreSQL dialect branches are not reached",
     "ill-typed filter conditions (e.g. '#e': 'x', kinds: 5) are not judged (free); empty lists match nothing",
     "soundness uses inclusive since/until and accepts NIP-26 delegators and id/author prefixes as possible matches",
 ]
 MIN_NONTRIVIAL = {"quick": 1000, "thorough": 10000}
-REQUIRED_COUNTERS = ["frames_judged", "shape_pairs_compared"]
+REQUIRED_COUNTERS = ["e2e.e2e_reqs_answered", "frames_judged", "shape_pairs_compared"]
 SHARD_TIMEOUT = {"quick": 500, "thorough": 3000}
 
 
 def plan(tier, seed):
+    return _plan(tier, seed) + e2e_plan(tier, seed)
+
+
+def e2e_plan(tier, seed):
+    """shards on a REAL server process tree (vf/e2e.py)"""
+    out = [{"mode": "e2e", "e2e": "query", "backend": "sql", "workers": 2, "seed": seed + 31}, {"mode": "e2e", "e2e": "query", "backend": "lmdb", "workers": 3, "seed": seed + 31}]
+    if tier == "thorough":
+        out += [{"mode": "e2e", "e2e": "query", "backend": b, "workers": w, "seed": seed + 10 + w, "nreqs": 150} for b in ("sql", "lmdb") for w in (2, 4)]
+    return out
+
+
+def _plan(tier, seed):
     shards = []
     if tier == "quick":
         per_backend, stores, singles, multis = 8, 4, 150, 50
@@ -375,6 +388,10 @@ def _dedup(viols, cap=3):
 
 
 def run_shard(spec):
+    if spec.get("mode") == "e2e":
+        from .. import e2e_cases
+
+        return e2e_cases.run_e2e_shard(ID, spec)
     counters = {}
     viols, nontrivial, samples = [], [], []
     for s in range(spec["stores"]):
@@ -396,6 +413,10 @@ def run_shard(spec):
 
 
 def replay(rp, spec):
+    if rp.get("mode") == "e2e":
+        from .. import e2e_cases
+
+        return e2e_cases.run_e2e_shard(ID, rp)
     counters = {}
     rp = dict(rp)
     rp.setdefault("filters", [])
